@@ -277,6 +277,11 @@ fn check_session_rf(msgs: &[RefMsg], write_script: Vec<WriteAct>, write_default:
             read_boundaries.push(rng.usize(tape.len()));
         }
     }
+    run_session(msgs, tape, read_boundaries, read_faults, write_script, write_default, rep)
+}
+
+/// The session itself: `tape` holds the reply lines in order (followed by the sentinel).
+fn run_session(msgs: &[RefMsg], tape: Vec<u8>, read_boundaries: Vec<usize>, read_faults: Vec<(usize, ReadFault, usize)>, write_script: Vec<WriteAct>, write_default: WriteAct, rep: &mut Report) {
     let sig = if msgs.len() > 100 {
         format!("long session of {} messages|{:016x}", msgs.len(), fnv(&tape))
     } else {
@@ -436,6 +441,32 @@ fn sessions(ctx: &Ctx, shard: usize, n: u64, rep: &mut Report) {
             }
         }
         rep.count("session_core_done");
+    }
+    if shard == 2 {
+        // what the previous reply was must not change how a failing read is treated: [poll -> reply R, poll -> read fails]
+        // for R = each of the 13 states (the two in-progress ones among them) and an ack, the failure of every kind, at
+        // the first byte, in the middle and at the last byte of the second reply
+        let second = refs::wire(&RefMsg::Report(3, S_LOADED));
+        let mut firsts: Vec<RefMsg> = (0..N_STATES).map(|s| RefMsg::Report(3, s)).collect();
+        firsts.push(RefMsg::Ack(3, O_SHOW));
+        firsts.push(RefMsg::Report(4, S_LOAD_PROG));
+        for first in firsts {
+            for (req2, label) in [(RefMsg::Query(3), "same sign polled again"), (RefMsg::Hello(3), "hello to the same sign"), (RefMsg::Query(4), "another sign polled")] {
+                let head = refs::wire(&first);
+                for at in [0usize, 7, second.len() - 1] {
+                    for fault in [ReadFault::Fail(io::ErrorKind::TimedOut), ReadFault::Fail(io::ErrorKind::WouldBlock), ReadFault::Fail(io::ErrorKind::Other), ReadFault::Eof] {
+                        let mut tape = head.clone();
+                        tape.extend_from_slice(&second);
+                        tape.extend_from_slice(&second);
+                        tape.extend_from_slice(SENTINEL);
+                        let msgs = [RefMsg::Query(3), req2.clone(), RefMsg::Query(3)];
+                        run_session(&msgs, tape, vec![], vec![(head.len() + at, fault, 1)], vec![], WriteAct::Accept(usize::MAX), rep);
+                        rep.count("sessions_failing_read_after_each_reply_kind");
+                        let _ = label;
+                    }
+                }
+            }
+        }
     }
     if shard == 1 {
         // one bus instance, 70 000 messages (more than any 16-bit counter holds), each judged like any other
@@ -685,6 +716,7 @@ pub fn run(ctx: &Ctx) -> Outcome {
     floors.push(floor("write failures hit", report.get("write_failures_injected_and_hit") > 0, report.get("write_failures_injected_and_hit")));
     floors.push(floor("read failures hit", report.get("read_failures_injected_and_hit") > 0, report.get("read_failures_injected_and_hit")));
     floors.push(floor("sessions that go on after a reply was cut short (read error / end of stream mid-session)", report.get("session_read_faults_hit") > 500, report.get("session_read_faults_hit")));
+    floors.push(floor("a failing read right after each kind of reply (15 reply kinds x 3 next requests x 3 positions x 4 failures)", report.get("sessions_failing_read_after_each_reply_kind") == 15 * 3 * 3 * 4, report.get("sessions_failing_read_after_each_reply_kind")));
     floors.push(floor("one bus instance used for 70 000 messages", report.get("long_session_messages_checked") == 70_000, report.get("long_session_messages_checked")));
     floors.push(floor("multi-message sessions on one bus (write failure at every call index + random)", report.get("session_core_done") == 1 && report.get("sessions") > 1000 && report.get("session_write_failures_hit") > 100, report.get("sessions")));
     floors.push(floor("fault-at-every-index case lists ran", report.get("cases/write_fault_each_call") > 50 && report.get("cases/read_fault_each_position") > 100 && report.get("cases/read_fragmentation") == 4096, report.get("cases/read_fault_each_position")));
